@@ -179,13 +179,7 @@ theorem runOps_reach : ∀ (ops : List Op) {s : MState}, Reach s.cyc → Reach (
   | cons op ops ih => intro s h; exact ih (step_reach h op)
 
 theorem init_reach (cfg : Config) (ifs : List Iface) (s : MState) (h : newAgent cfg ifs = .ok s) : Reach s.cyc := by
-  unfold newAgent at h
-  split at h
-  · simp at h
-  · split at h
-    · simp at h
-    · simp only [Except.ok.injEq] at h
-      subst h
-      exact reach_init
+  rw [IceProofs.GatherAgent.newAgent_ok h]
+  exact reach_init
 
 end IceProofs.GatherCycReach
